@@ -17,8 +17,9 @@ class RecordingRegressor(RegressorMixin, BaseEstimator):
     """Tabular / time-series regressor stub: logs fit(X, y) and predict(X); the k-th predict
     call returns the token 100000 + 100*k + j for output column j."""
 
-    def __init__(self, tag="r"):
+    def __init__(self, tag="r", frac=0.0):
         self.tag = tag
+        self.frac = frac      # outputs are lowered by frac, so that a truncation to integers shows after rounding
 
     def fit(self, X, y):
         X = np.asarray(X, dtype=float)
@@ -39,9 +40,9 @@ class RecordingRegressor(RegressorMixin, BaseEstimator):
             {"ev": "predict", "ndim": X.ndim, "shape": list(X.shape), "X": X.reshape(X.shape[0], -1).tolist()})
         n = X.shape[0]
         if getattr(self, "ydim_", 1) == 1:
-            out = np.full(n, 100000.0 + 100 * k)
+            out = np.full(n, 100000.0 + 100 * k - self.frac)
             return np.asarray(out[0]) if n == 1 else out   # 0-d for one row (numpy>=2.4, DESIGN 1.4a)
-        return np.tile(100000.0 + 100 * k + np.arange(self.n_outputs_), (n, 1))
+        return np.tile(100000.0 + 100 * k + np.arange(self.n_outputs_) - self.frac, (n, 1))
 
 
 def make_recording_forecaster():
